@@ -84,6 +84,10 @@ func (l *queryLog) searchMemory(
 			// Go on and try to match anyway.
 		}
 
+		if l.isIgnored(e.QHost) || (e.client != nil && e.client.IgnoreQueryLog) {
+			return true
+		}
+
 		if params.match(e) {
 			entries = append(entries, e)
 		}
